@@ -10,7 +10,7 @@ import (
 	"time"
 )
 
-func (P *Prog) recDefs() string { return "" }
+
 
 func loadAll(repo, verif string) (*Prog, error) {
 	P, err := loadProg(repo)
